@@ -102,7 +102,7 @@ def run_batch(lib, behs, wfd, tmo):
         if status != "ok":
             break      # library state may be off: the parent starts a fresh process for the rest
     try:
-        lib.__gcov_dump()      # coverage build only (bin/coverage.sh): counters are not written at _exit
+        lib.h4v_gcov_dump()    # coverage build only (bin/coverage.sh): counters are not written at _exit
     except Exception:
         pass
     os._exit(0)
